@@ -51,6 +51,9 @@ class FakeModel:
     def list_var(self):
         return ["q"]
 
+    def initdisc(self, mesh):
+        return
+
 
 class FakeMesh:
     def __init__(self, ncell):
